@@ -3,18 +3,28 @@
 //!    generated one (match the raw path against "/NAME/Method" literals, default arm = 12), and
 //!  * REAL generated servers: four built at compile time by /repo's generator (build.rs: names that
 //!    are prefixes of one another, with / without package) and the three committed in /repo
-//!    (health, reflection v1 + v1alpha),
-//! all wrapped in a recorder that notes which service was reached.  Every request is judged by a
-//! direct oracle (handler hit iff path == "/S/M" literally, else grpc-status 12 and no handler) and
-//! compared with `Model/Router.v` evaluated inside Coq.
+//!    (health, reflection v1 + v1alpha).
+//! Registration paths driven: Routes::default().add_service, Routes::new, RoutesBuilder::add_service
+//! (&mut, as a builder), RoutesBuilder::from(Routes), prepare(), and
+//! tonic::transport::Server::builder().add_service / add_optional_service(Some|None) +
+//! transport Router::add_service / add_optional_service, served with serve_with_incoming over
+//! tokio::io::duplex and driven by a raw h2 client.  NamedService::NAME reaches the router through
+//! this harness' own `Wrap`, or through tonic's own propagation: InterceptedService::new(svc, f),
+//! the generated XxxServer::with_interceptor(inner, f), and Layered (LayerExt::named_layer).
+//! Every request is judged by a direct oracle (handler hit iff path == "/S/M" literally, else a
+//! well-formed UNIMPLEMENTED response and no handler) and compared with `Model/Router.v` inside Coq.
 use bytes::Bytes;
 use h_router::{Rec, COMMITTED, FIXTURE};
+use http::HeaderMap;
 use serde_json::{json, Value};
 use std::convert::Infallible;
 use std::sync::{Arc, Mutex};
 use tonic::body::Body;
 use tonic::server::NamedService;
-use tonic::service::Routes;
+use tonic::service::interceptor::InterceptedService;
+use tonic::service::{LayerExt, Routes, RoutesBuilder};
+use tonic::transport::server::Router as TRouter;
+use tonic::transport::Server;
 use tower_service::Service;
 use vcommon::body::spin;
 use vcommon::*;
@@ -67,7 +77,8 @@ impl<const I: usize> Service<http::Request<Body>> for Stub<I> {
     }
 }
 
-/// records that the service registered under `S::NAME` was reached, then delegates
+// ------------------------------------------------------------------ recorders
+/// How::Plain: records that the service registered under `S::NAME` was reached, then delegates
 #[derive(Clone)]
 struct Wrap<S> {
     inner: S,
@@ -91,50 +102,133 @@ where
         self.inner.call(req)
     }
 }
+/// How::Intercepted / WithInterceptor: the interceptor records the name the harness EXPECTS the
+/// wrapped service to be routed under; NamedService comes from tonic's InterceptedService impl
+fn icpt(reached: ReachLog, name: &'static str) -> impl tonic::service::Interceptor + Clone + Send + Sync + 'static {
+    move |req: tonic::Request<()>| {
+        reached.lock().unwrap().push(name.to_string());
+        Ok(req)
+    }
+}
+/// How::Layered: a tower Layer whose service has NO NamedService impl; the name comes from
+/// tonic's `Layered<_, S>` (LayerExt::named_layer)
+#[derive(Clone)]
+struct RecLayer {
+    reached: ReachLog,
+    name: &'static str,
+}
+#[derive(Clone)]
+struct RecSvc<S> {
+    inner: S,
+    reached: ReachLog,
+    name: &'static str,
+}
+impl<S> tower_layer::Layer<S> for RecLayer {
+    type Service = RecSvc<S>;
+    fn layer(&self, inner: S) -> RecSvc<S> {
+        RecSvc { inner, reached: self.reached.clone(), name: self.name }
+    }
+}
+impl<S, R> Service<R> for RecSvc<S>
+where
+    S: Service<R>,
+{
+    type Response = S::Response;
+    type Error = S::Error;
+    type Future = S::Future;
+    fn poll_ready(&mut self, cx: &mut std::task::Context<'_>) -> std::task::Poll<Result<(), S::Error>> {
+        self.inner.poll_ready(cx)
+    }
+    fn call(&mut self, req: R) -> Self::Future {
+        self.reached.lock().unwrap().push(self.name.to_string());
+        self.inner.call(req)
+    }
+}
 
+// ------------------------------------------------------------------ registrations
 #[derive(Clone, Debug, PartialEq)]
-enum Reg {
+enum Kind {
     Stub { idx: usize, methods: Vec<String> },
     /// 0..4 = FIXTURE (generated at build time), 4.. = COMMITTED (health, reflection)
     Real(usize),
 }
-impl Reg {
-    fn name(&self) -> &'static str {
+#[derive(Clone, Copy, Debug, PartialEq)]
+enum How {
+    Plain,
+    Intercepted,
+    WithInterceptor,
+    Layered,
+}
+impl How {
+    fn s(self) -> &'static str {
         match self {
-            Reg::Stub { idx, .. } => STUB_NAMES[*idx],
-            Reg::Real(k) if *k < 4 => FIXTURE[*k].0,
-            Reg::Real(k) => COMMITTED[*k - 4].0,
+            How::Plain => "harness Wrap",
+            How::Intercepted => "InterceptedService::new",
+            How::WithInterceptor => "XxxServer::with_interceptor",
+            How::Layered => "Layered (named_layer)",
+        }
+    }
+    fn parse(s: &str) -> How {
+        [How::Plain, How::Intercepted, How::WithInterceptor, How::Layered].into_iter().find(|h| h.s() == s).unwrap_or(How::Plain)
+    }
+}
+#[derive(Clone, Debug, PartialEq)]
+struct Reg {
+    kind: Kind,
+    how: How,
+    /// transport only: None = add_service, Some(true) = add_optional_service(Some(svc)),
+    /// Some(false) = add_optional_service(None): nothing is registered
+    opt: Option<bool>,
+}
+impl Reg {
+    fn stub(idx: usize, methods: &[&str]) -> Reg {
+        Reg { kind: Kind::Stub { idx, methods: methods.iter().map(|m| m.to_string()).collect() }, how: How::Plain, opt: None }
+    }
+    fn real(k: usize) -> Reg {
+        Reg { kind: Kind::Real(k), how: How::Plain, opt: None }
+    }
+    fn present(&self) -> bool {
+        self.opt != Some(false)
+    }
+    fn is_real(&self) -> bool {
+        matches!(self.kind, Kind::Real(_))
+    }
+    fn name(&self) -> &'static str {
+        match &self.kind {
+            Kind::Stub { idx, .. } => STUB_NAMES[*idx],
+            Kind::Real(k) if *k < 4 => FIXTURE[*k].0,
+            Kind::Real(k) => COMMITTED[*k - 4].0,
         }
     }
     fn methods(&self) -> Vec<String> {
-        match self {
-            Reg::Stub { methods, .. } => methods.clone(),
-            Reg::Real(k) if *k < 4 => FIXTURE[*k].1.iter().map(|m| m.0.to_string()).collect(),
-            Reg::Real(k) => COMMITTED[*k - 4].1.iter().map(|m| m.0.to_string()).collect(),
+        match &self.kind {
+            Kind::Stub { methods, .. } => methods.clone(),
+            Kind::Real(k) if *k < 4 => FIXTURE[*k].1.iter().map(|m| m.0.to_string()).collect(),
+            Kind::Real(k) => COMMITTED[*k - 4].1.iter().map(|m| m.0.to_string()).collect(),
         }
     }
     fn coq(&self) -> String {
-        format!(
-            "(mkSvc {} {})",
-            coq_bytes(self.name().as_bytes()),
-            coq_list(&self.methods(), |m| coq_bytes(m.as_bytes()))
-        )
+        format!("(mkSvc {} {})", coq_bytes(self.name().as_bytes()), coq_list(&self.methods(), |m| coq_bytes(m.as_bytes())))
     }
     fn json(&self) -> Value {
-        json!({"name": self.name(), "methods": self.methods(), "real": matches!(self, Reg::Real(_))})
+        json!({"name": self.name(), "methods": self.methods(), "real": self.is_real(), "how": self.how.s(), "optional": self.opt})
     }
     fn from_json(v: &Value) -> Reg {
         let name = v["name"].as_str().unwrap();
-        if v["real"].as_bool().unwrap_or(false) {
-            let k = FIXTURE.iter().map(|f| f.0).chain(COMMITTED.iter().map(|f| f.0)).position(|n| n == name).unwrap();
-            Reg::Real(k)
+        let kind = if v["real"].as_bool().unwrap_or(false) {
+            Kind::Real(FIXTURE.iter().map(|f| f.0).chain(COMMITTED.iter().map(|f| f.0)).position(|n| n == name).unwrap())
         } else {
-            Reg::Stub {
+            Kind::Stub {
                 idx: STUB_NAMES.iter().position(|n| *n == name).unwrap(),
                 methods: v["methods"].as_array().unwrap().iter().map(|m| m.as_str().unwrap().to_string()).collect(),
             }
-        }
+        };
+        Reg { kind, how: How::parse(v["how"].as_str().unwrap_or("")), opt: v["optional"].as_bool() }
     }
+}
+/// the registrations the model sees: add_optional_service(None) registers nothing
+fn present(regs: &[Reg]) -> Vec<Reg> {
+    regs.iter().filter(|g| g.present()).cloned().collect()
 }
 
 #[derive(Clone, Default)]
@@ -156,56 +250,152 @@ impl World {
     }
 }
 
+/// the thing `add_service` is called on
+enum Target {
+    /// Routes::new(first) then Routes::add_service
+    Fresh,
+    Routes(Routes),
+    /// RoutesBuilder::add_service(&mut self, ..) used as a builder
+    Builder(RoutesBuilder),
+    /// tonic::transport::Server::builder(): the first add turns it into a transport Router
+    Server(Server),
+    Router(TRouter),
+}
+impl Target {
+    fn add<S>(self, svc: S, opt: Option<bool>) -> Target
+    where
+        S: Service<http::Request<Body>, Error = Infallible> + NamedService + Clone + Send + Sync + 'static,
+        S::Response: axum::response::IntoResponse,
+        S::Future: Send + 'static,
+    {
+        match self {
+            Target::Fresh => Target::Routes(Routes::new(svc)),
+            Target::Routes(r) => Target::Routes(r.add_service(svc)),
+            Target::Builder(mut b) => {
+                b.add_service(svc);
+                Target::Builder(b)
+            }
+            Target::Server(mut s) => Target::Router(match opt {
+                None => s.add_service(svc),
+                Some(true) => s.add_optional_service(Some(svc)),
+                Some(false) => s.add_optional_service(None::<S>),
+            }),
+            Target::Router(r) => Target::Router(match opt {
+                None => r.add_service(svc),
+                Some(true) => r.add_optional_service(Some(svc)),
+                Some(false) => r.add_optional_service(None::<S>),
+            }),
+        }
+    }
+}
+fn reg_generic<S>(t: Target, svc: S, how: How, name: &'static str, w: &World, opt: Option<bool>) -> Target
+where
+    S: Service<http::Request<Body>, Response = http::Response<Body>, Error = Infallible> + NamedService + Clone + Send + Sync + 'static,
+    S::Future: Send + 'static,
+{
+    let reached = w.reached.clone();
+    match how {
+        How::Plain => t.add(Wrap { inner: svc, reached }, opt),
+        How::Intercepted | How::WithInterceptor => t.add(InterceptedService::new(svc, icpt(reached, name)), opt),
+        How::Layered => t.add(RecLayer { reached, name }.named_layer(svc), opt),
+    }
+}
 macro_rules! add_stub {
-    ($routes:expr, $i:expr, $w:expr, $methods:expr; $($n:literal)*) => {
+    ($t:expr, $i:expr, $w:expr, $methods:expr, $how:expr, $opt:expr; $($n:literal)*) => {
         match $i {
-            $($n => $routes.add_service(Wrap { inner: Stub::<$n> { hits: $w.stub_hits.clone(), methods: $methods }, reached: $w.reached.clone() }),)*
+            $($n => reg_generic($t, Stub::<$n> { hits: $w.stub_hits.clone(), methods: $methods }, $how, STUB_NAMES[$n], $w, $opt),)*
             _ => panic!("stub index out of range"),
         }
     };
 }
-fn register(routes: Routes, reg: &Reg, w: &World) -> Routes {
-    use h_router::*;
-    let reached = w.reached.clone();
-    let rec = w.rec.clone();
-    match reg {
-        Reg::Stub { idx, methods } => {
-            let methods = Arc::new(methods.clone());
-            add_stub!(routes, *idx, w, methods; 0 1 2 3 4 5 6 7 8 9 10 11 12 13 14 15 16 17 18 19 20 21 22 23 24 25 26 27 28 29)
+macro_rules! add_real {
+    ($t:expr, $server:path, $g:expr, $w:expr) => {{
+        let rec = $w.rec.clone();
+        if $g.how == How::WithInterceptor {
+            // generated: InterceptedService::new(Self::new(inner), interceptor)
+            $t.add(<$server>::with_interceptor(rec, icpt($w.reached.clone(), $g.name())), $g.opt)
+        } else {
+            reg_generic($t, <$server>::new(rec), $g.how, $g.name(), $w, $g.opt)
         }
-        Reg::Real(0) => routes.add_service(Wrap { inner: pkg_svc::svc_server::SvcServer::new(rec), reached }),
-        Reg::Real(1) => routes.add_service(Wrap { inner: pkg_svcx::svc_x_server::SvcXServer::new(rec), reached }),
-        Reg::Real(2) => routes.add_service(Wrap { inner: nopkg_svc::svc_server::SvcServer::new(rec), reached }),
-        Reg::Real(3) => routes.add_service(Wrap { inner: pkg_svc_inner::inner_server::InnerServer::new(rec), reached }),
-        Reg::Real(4) => routes.add_service(Wrap { inner: tonic_health::pb::health_server::HealthServer::new(rec), reached }),
-        Reg::Real(5) => routes.add_service(Wrap {
-            inner: tonic_reflection::pb::v1::server_reflection_server::ServerReflectionServer::new(rec),
-            reached,
-        }),
-        Reg::Real(6) => routes.add_service(Wrap {
-            inner: tonic_reflection::pb::v1alpha::server_reflection_server::ServerReflectionServer::new(rec),
-            reached,
-        }),
-        Reg::Real(_) => panic!("real index out of range"),
+    }};
+}
+fn register(t: Target, g: &Reg, w: &World) -> Target {
+    use h_router::*;
+    match &g.kind {
+        Kind::Stub { idx, methods } => {
+            let methods = Arc::new(methods.clone());
+            add_stub!(t, *idx, w, methods, g.how, g.opt; 0 1 2 3 4 5 6 7 8 9 10 11 12 13 14 15 16 17 18 19 20 21 22 23 24 25 26 27 28 29)
+        }
+        Kind::Real(0) => add_real!(t, pkg_svc::svc_server::SvcServer<Rec>, g, w),
+        Kind::Real(1) => add_real!(t, pkg_svcx::svc_x_server::SvcXServer<Rec>, g, w),
+        Kind::Real(2) => add_real!(t, nopkg_svc::svc_server::SvcServer<Rec>, g, w),
+        Kind::Real(3) => add_real!(t, pkg_svc_inner::inner_server::InnerServer<Rec>, g, w),
+        Kind::Real(4) => add_real!(t, tonic_health::pb::health_server::HealthServer<Rec>, g, w),
+        Kind::Real(5) => add_real!(t, tonic_reflection::pb::v1::server_reflection_server::ServerReflectionServer<Rec>, g, w),
+        Kind::Real(6) => add_real!(t, tonic_reflection::pb::v1alpha::server_reflection_server::ServerReflectionServer<Rec>, g, w),
+        Kind::Real(_) => panic!("real index out of range"),
     }
 }
 
-/// Routes::default().add_service(..).add_service(..) [.prepare()]; Err = add_service panicked
-fn build(regs: &[Reg], w: &World, prepare: bool, via_builder: bool) -> Result<Routes, String> {
+#[derive(Clone, Copy, Debug, PartialEq)]
+enum Via {
+    Direct,      // Routes::default().add_service(..)..
+    New,         // Routes::new(first).add_service(..)..
+    Builder,     // let mut b = Routes::builder(); b.add_service(..); ..; b.routes()
+    BuilderFrom, // RoutesBuilder::from(Routes::default()) ..
+}
+impl Via {
+    fn s(self) -> &'static str {
+        match self {
+            Via::Direct => "Routes::default().add_service",
+            Via::New => "Routes::new",
+            Via::Builder => "RoutesBuilder::add_service(&mut)",
+            Via::BuilderFrom => "RoutesBuilder::from(Routes)",
+        }
+    }
+    fn parse(s: &str) -> Via {
+        [Via::Direct, Via::New, Via::Builder, Via::BuilderFrom].into_iter().find(|h| h.s() == s).unwrap_or(Via::Direct)
+    }
+    fn pick(r: &mut Rng) -> Via {
+        *r.pick(&[Via::Direct, Via::Direct, Via::New, Via::Builder, Via::Builder, Via::BuilderFrom])
+    }
+}
+/// Err = add_service panicked
+fn build(regs: &[Reg], w: &World, prepare: bool, via: Via) -> Result<Routes, String> {
     catch(std::panic::AssertUnwindSafe(|| {
-        let mut r = Routes::default();
-        if via_builder {
-            // RoutesBuilder::add_service takes the Routes out, adds, puts back: same path
-            let b: tonic::service::RoutesBuilder = r.into();
-            r = b.routes();
-        }
+        let mut t = match via {
+            Via::Direct => Target::Routes(Routes::default()),
+            Via::New => Target::Fresh,
+            Via::Builder => Target::Builder(Routes::builder()),
+            Via::BuilderFrom => Target::Builder(RoutesBuilder::from(Routes::default())),
+        };
         for g in regs {
-            r = register(r, g, w);
+            t = register(t, g, w);
         }
+        let r = match t {
+            Target::Fresh => Routes::default(),
+            Target::Routes(r) => r,
+            Target::Builder(b) => b.routes(),
+            _ => unreachable!(),
+        };
         if prepare {
             r.prepare()
         } else {
             r
+        }
+    }))
+}
+/// Server::builder().add_service(a).add_service(b).add_optional_service(..)
+fn build_transport(regs: &[Reg], w: &World) -> Result<TRouter, String> {
+    catch(std::panic::AssertUnwindSafe(|| {
+        let mut t = Target::Server(Server::builder());
+        for g in regs {
+            t = register(t, g, w);
+        }
+        match t {
+            Target::Server(mut s) => s.add_routes(Routes::default()),
+            Target::Router(r) => r,
+            _ => unreachable!(),
         }
     }))
 }
@@ -215,13 +405,17 @@ fn build(regs: &[Reg], w: &World, prepare: bool, via_builder: bool) -> Result<Ro
 struct Obs {
     hits: Vec<(String, String)>,
     reached: Vec<String>,
-    status: Option<Vec<u8>>,
     http: u16,
+    headers: HeaderMap,
+    body: Vec<u8>,
+    trailers: Option<HeaderMap>,
 }
+/// one gRPC frame holding an empty message: lets the real generated servers reach the handler
+const FRAME: &[u8] = &[0, 0, 0, 0, 0];
+
 fn request(routes: &Routes, w: &World, uri: &http::Uri) -> Result<Obs, String> {
     w.clear();
-    // one gRPC frame holding an empty message: lets the real generated servers reach the handler
-    let body = Body::new(http_body_util::Full::new(Bytes::from_static(&[0, 0, 0, 0, 0])));
+    let body = Body::new(http_body_util::Full::new(Bytes::from_static(FRAME)));
     let req = http::Request::builder()
         .method("POST")
         .uri(uri.clone())
@@ -230,27 +424,91 @@ fn request(routes: &Routes, w: &World, uri: &http::Uri) -> Result<Obs, String> {
         .body(body)
         .unwrap();
     let mut r = routes.clone();
-    let res = catch(std::panic::AssertUnwindSafe(|| spin(Service::call(&mut r, req), 100_000)));
-    match res {
-        Err(p) => Err(format!("panic: {}", p)),
-        Ok(Err(())) => Err("hang".into()),
-        Ok(Ok(Err(e))) => match e {},
-        Ok(Ok(Ok(resp))) => Ok(Obs {
+    let res = catch(std::panic::AssertUnwindSafe(|| {
+        let resp = match spin(Service::call(&mut r, req), 100_000) {
+            Err(()) => return Err("hang".to_string()),
+            Ok(Err(e)) => match e {},
+            Ok(Ok(resp)) => resp,
+        };
+        let (parts, body) = resp.into_parts();
+        let collected = match spin(http_body_util::BodyExt::collect(body), 100_000) {
+            Err(()) => return Err("response body hangs".to_string()),
+            Ok(Err(e)) => return Err(format!("response body error: {}", e)),
+            Ok(Ok(c)) => c,
+        };
+        let trailers = collected.trailers().cloned();
+        Ok(Obs {
             hits: w.hits(),
             reached: w.reached.lock().unwrap().clone(),
-            status: resp.headers().get("grpc-status").map(|v| v.as_bytes().to_vec()),
-            http: resp.status().as_u16(),
-        }),
+            http: parts.status.as_u16(),
+            headers: parts.headers,
+            body: collected.to_bytes().to_vec(),
+            trailers,
+        })
+    }));
+    match res {
+        Err(p) => Err(format!("panic: {}", p)),
+        Ok(r) => r,
     }
 }
-fn status_num(s: &Option<Vec<u8>>) -> Tr {
-    Tr::opt(s.as_ref().map(|v| {
-        match std::str::from_utf8(v).ok().and_then(|t| t.parse::<u32>().ok()) {
-            Some(n) => Tr::n(n),
-            None => Tr::n(999u32),
+
+/// the same over a real connection: the transport Router served with serve_with_incoming on one
+/// end of tokio::io::duplex, a raw h2 client on the other (so that arbitrary paths can be sent)
+fn wire_requests(router: TRouter, w: &World, uris: &[http::Uri]) -> Vec<Result<Obs, String>> {
+    use tokio_stream::StreamExt;
+    let rt = tokio::runtime::Builder::new_current_thread().enable_all().build().unwrap();
+    let out = rt.block_on(async {
+        let (client_io, server_io) = tokio::io::duplex(1 << 16);
+        let incoming = tokio_stream::once(Ok::<_, std::io::Error>(server_io)).chain(tokio_stream::pending());
+        tokio::spawn(async move {
+            let _ = router.serve_with_incoming(incoming).await;
+        });
+        let (send, conn) = match h2::client::handshake(client_io).await {
+            Ok(x) => x,
+            Err(e) => return uris.iter().map(|_| Err(format!("h2 handshake: {}", e))).collect(),
+        };
+        tokio::spawn(async move {
+            let _ = conn.await;
+        });
+        let mut out = vec![];
+        for uri in uris {
+            w.clear();
+            let one = async {
+                let req = http::Request::builder()
+                    .method("POST")
+                    .uri(uri.clone())
+                    .header("content-type", "application/grpc")
+                    .header("te", "trailers")
+                    .body(())
+                    .unwrap();
+                let mut s = send.clone().ready().await.map_err(|e| format!("h2 ready: {}", e))?;
+                let (resp, mut stream) = s.send_request(req, false).map_err(|e| format!("h2 send_request: {}", e))?;
+                let _ = stream.send_data(Bytes::from_static(FRAME), true);
+                let resp = resp.await.map_err(|e| format!("h2 response: {}", e))?;
+                let (parts, mut body) = resp.into_parts();
+                let mut data = vec![];
+                while let Some(chunk) = body.data().await {
+                    let c = chunk.map_err(|e| format!("h2 data: {}", e))?;
+                    let _ = body.flow_control().release_capacity(c.len());
+                    data.extend_from_slice(&c);
+                }
+                let trailers = body.trailers().await.map_err(|e| format!("h2 trailers: {}", e))?;
+                let mut headers = parts.headers;
+                // the only hop-level header hyper adds; everything else is what Routes answered
+                headers.remove("date");
+                Ok::<Obs, String>(Obs { hits: w.hits(), reached: w.reached.lock().unwrap().clone(), http: parts.status.as_u16(), headers, body: data, trailers })
+            };
+            out.push(match tokio::time::timeout(std::time::Duration::from_secs(20), one).await {
+                Ok(r) => r,
+                Err(_) => Err("no response within 20 s".to_string()),
+            });
         }
-    }))
+        out
+    });
+    drop(rt);
+    out
 }
+
 fn obs_tr(o: &Result<Obs, String>) -> Tr {
     match o {
         Err(_) => Tr::L(vec![Tr::n(97u8)]),
@@ -264,7 +522,13 @@ fn obs_tr(o: &Result<Obs, String>) -> Tr {
             } else {
                 Tr::L(vec![Tr::n(98u8)])
             };
-            Tr::L(vec![out, status_num(&o.status)])
+            // what a handler answers is not the router's business
+            let reply = if !o.hits.is_empty() {
+                Tr::L(vec![Tr::n(0u8)])
+            } else {
+                Tr::L(vec![Tr::n(1u8), Tr::n(o.http), hm_tr(&o.headers), Tr::b(&o.body), Tr::opt(o.trailers.as_ref().map(hm_tr))])
+            };
+            Tr::L(vec![out, reply])
         }
     }
 }
@@ -295,12 +559,32 @@ fn oracle(regs: &[Reg], path: &str, o: &Result<Obs, String>) -> Option<String> {
     if !o.hits.is_empty() {
         return Some(format!("path {:?} names no registered method but reached handler {:?}", path, o.hits));
     }
-    if o.status.as_deref() != Some(b"12") {
+    // a well-formed UNIMPLEMENTED answer (gRPC "Trailers-Only")
+    let vals = |k: &str| -> Vec<Vec<u8>> { o.headers.get_all(k).iter().map(|v| v.as_bytes().to_vec()).collect() };
+    if vals("grpc-status") != vec![b"12".to_vec()] {
         return Some(format!(
-            "path {:?} names no registered method but grpc-status header is {:?}, not 12",
+            "path {:?} names no registered method but grpc-status headers are {:?}, not exactly one 12",
             path,
-            o.status.as_ref().map(|v| String::from_utf8_lossy(v).to_string())
+            vals("grpc-status").iter().map(|v| String::from_utf8_lossy(v).to_string()).collect::<Vec<_>>()
         ));
+    }
+    if o.http != 200 {
+        return Some(format!("UNIMPLEMENTED answer for {:?} has HTTP status {}", path, o.http));
+    }
+    if vals("content-type") != vec![b"application/grpc".to_vec()] {
+        return Some(format!(
+            "UNIMPLEMENTED answer for {:?} has content-type {:?}, not application/grpc",
+            path,
+            vals("content-type").iter().map(|v| String::from_utf8_lossy(v).to_string()).collect::<Vec<_>>()
+        ));
+    }
+    if !o.body.is_empty() {
+        return Some(format!("UNIMPLEMENTED answer for {:?} has a body of {} bytes", path, o.body.len()));
+    }
+    if let Some(t) = &o.trailers {
+        if !t.is_empty() {
+            return Some(format!("UNIMPLEMENTED answer for {:?} has status in the headers and trailers {:?} as well", path, t));
+        }
     }
     None
 }
@@ -334,19 +618,35 @@ fn gen_methods(r: &mut Rng) -> Vec<String> {
     }
     v
 }
+fn gen_how(r: &mut Rng, real: bool) -> How {
+    match r.below(10) {
+        0..=3 => How::Plain,
+        4 | 5 => How::Intercepted,
+        6 | 7 => How::Layered,
+        _ => {
+            if real {
+                How::WithInterceptor
+            } else {
+                How::Intercepted
+            }
+        }
+    }
+}
 fn gen_regs(r: &mut Rng, max: u64, min: u64) -> Vec<Reg> {
     let n = r.range(min, max) as usize;
     let mut v: Vec<Reg> = vec![];
     let fam = *r.pick(FAMILIES);
     let mut tries = 0;
-    while v.len() < n && tries < 50 {
+    while v.len() < n && tries < 80 {
         tries += 1;
-        let g = if r.chance(1, 4) {
-            Reg::Real(r.below(7) as usize)
+        let kind = if r.chance(1, 4) {
+            Kind::Real(r.below(7) as usize)
         } else {
             let idx = if r.chance(3, 4) { *r.pick(fam) } else { r.below(N_MODEL as u64) as usize };
-            Reg::Stub { idx, methods: gen_methods(r) }
+            Kind::Stub { idx, methods: gen_methods(r) }
         };
+        let real = matches!(kind, Kind::Real(_));
+        let g = Reg { kind, how: gen_how(r, real), opt: None };
         if v.iter().all(|x| x.name() != g.name()) {
             v.push(g);
         }
@@ -354,165 +654,8 @@ fn gen_regs(r: &mut Rng, max: u64, min: u64) -> Vec<Reg> {
     v
 }
 
-fn flip_case(c: char) -> char {
-    if c.is_ascii_uppercase() {
-        c.to_ascii_lowercase()
-    } else {
-        c.to_ascii_uppercase()
-    }
-}
-const INS: &[char] = &['/', '.', 'X', 'x', '%', '2', 'F', '_', ';', '*', ':', '-', '{', '}', '\u{e9}', '+', '~', '='];
-const MUTATIONS: &[&str] = &[
-    "id", "drop", "insert", "case1", "upper", "lower", "seg_after", "seg_before", "trail_slash", "lead_slash",
-    "mid_slash", "pct_slash", "pct_slash_lc", "pct_letter", "pct_dot", "query", "query_path", "fragment",
-    "absolute", "trunc_svc", "ext_svc", "trunc_m", "ext_m", "drop_m", "drop_all", "no_lead", "dot_seg",
-    "dotdot", "semicolon", "swap", "space_pct", "dup",
-];
-/// one mutation of the URI text (before parsing)
-fn mutate(r: &mut Rng, s: &str, svc: &str, m: &str, which: &str) -> String {
-    let chars: Vec<char> = s.chars().collect();
-    let pos = |r: &mut Rng, incl_end: bool| -> usize {
-        let n = chars.len() + incl_end as usize;
-        if n == 0 {
-            0
-        } else {
-            r.below(n as u64) as usize
-        }
-    };
-    match which {
-        "id" => s.to_string(),
-        "drop" if !chars.is_empty() => {
-            let i = pos(r, false);
-            chars.iter().enumerate().filter(|(j, _)| *j != i).map(|(_, c)| *c).collect()
-        }
-        "insert" => {
-            let i = pos(r, true);
-            let c = *r.pick(INS);
-            let mut v = chars.clone();
-            v.insert(i, c);
-            v.into_iter().collect()
-        }
-        "case1" if !chars.is_empty() => {
-            let i = pos(r, false);
-            chars.iter().enumerate().map(|(j, c)| if j == i { flip_case(*c) } else { *c }).collect()
-        }
-        "upper" => s.to_ascii_uppercase(),
-        "lower" => s.to_ascii_lowercase(),
-        "seg_after" => format!("{}/{}", s, r.pick(&["x", "Get", "", "/", m])),
-        "seg_before" => format!("/{}{}", r.pick(&["x", "pkg", svc, "."]), s),
-        "trail_slash" => format!("{}/", s),
-        "lead_slash" => format!("/{}", s),
-        "mid_slash" => format!("/{}//{}", svc, m),
-        "pct_slash" => format!("/{}%2F{}", svc, m),
-        "pct_slash_lc" => format!("/{}%2f{}", svc, m),
-        "pct_letter" if !chars.is_empty() => {
-            let i = pos(r, false);
-            let mut out = String::new();
-            for (j, c) in chars.iter().enumerate() {
-                if j == i && c.is_ascii() && *c != '/' {
-                    out.push_str(&format!("%{:02X}", *c as u8));
-                } else {
-                    out.push(*c);
-                }
-            }
-            out
-        }
-        "pct_dot" => s.replace('.', "%2E"),
-        "query" => format!("{}?{}", s, r.pick(&["", "x=1", "a/b", "/"])),
-        "query_path" => format!("/{}?/{}", svc, m),
-        "fragment" => format!("{}#frag", s),
-        "absolute" => format!("{}://{}{}", r.pick(&["http", "https"]), r.pick(&["h", "example.com:50051", "[::1]"]), s),
-        "trunc_svc" if !svc.is_empty() => {
-            let k = r.below(svc.chars().count() as u64) as usize;
-            format!("/{}/{}", svc.chars().take(k).collect::<String>(), m)
-        }
-        "ext_svc" => format!("/{}{}/{}", svc, r.pick(&["X", ".", ".Inner", "x", "%", "_"]), m),
-        "trunc_m" if !m.is_empty() => {
-            let k = r.below(m.chars().count() as u64) as usize;
-            format!("/{}/{}", svc, m.chars().take(k).collect::<String>())
-        }
-        "ext_m" => format!("/{}/{}{}", svc, m, r.pick(&["X", "x", ".", "%20", "_"])),
-        "drop_m" => format!("/{}", svc),
-        "drop_all" => r.pick(&["/", "*", "//", "/.", "/%2F"]).to_string(),
-        "no_lead" => s.trim_start_matches('/').to_string(),
-        "dot_seg" => format!("/.{}", s),
-        "dotdot" => format!("/{}/../{}/{}", svc, svc, m),
-        "semicolon" => format!("/{};v=1/{}", svc, m),
-        "swap" => format!("/{}/{}", m, svc),
-        "space_pct" => format!("/{}%20/{}", svc, m),
-        "dup" => format!("{}{}", s, s),
-        _ => s.to_string(),
-    }
-}
-fn gen_random_path(r: &mut Rng) -> String {
-    let alpha: &[&str] = &["/", "/", "pkg", ".", "Svc", "X", "Get", "S", "a", "%2F", "%", "get", "b", "Inner", "x", "*", "{", "}"];
-    let n = r.range(0, 7);
-    let mut s = String::new();
-    if r.chance(5, 6) {
-        s.push('/');
-    }
-    for _ in 0..n {
-        s.push_str(*r.pick(alpha));
-    }
-    s
-}
-/// (uri text, description of the mutations)
-fn gen_uri(r: &mut Rng, regs: &[Reg]) -> (String, String) {
-    if r.chance(1, 10) {
-        return (gen_random_path(r), "random".into());
-    }
-    // base (service, method): mostly a registered pair
-    let (svc, m): (String, String) = if !regs.is_empty() && r.chance(4, 5) {
-        let g = r.pick(regs);
-        let ms = g.methods();
-        let m = if ms.is_empty() || r.chance(1, 8) { r.pick(METHODS).to_string() } else { r.pick(&ms).clone() };
-        (g.name().to_string(), m)
-    } else {
-        (STUB_NAMES[r.below(N_MODEL as u64) as usize].to_string(), r.pick(METHODS).to_string())
-    };
-    let mut s = format!("/{}/{}", svc, m);
-    let k = match r.below(10) {
-        0 | 1 => 0,
-        2..=7 => 1,
-        _ => 2,
-    };
-    let mut desc = vec![];
-    for _ in 0..k {
-        let which = *r.pick(&MUTATIONS[1..]);
-        s = mutate(r, &s, &svc, &m, which);
-        desc.push(which);
-    }
-    if desc.is_empty() {
-        desc.push("id");
-    }
-    (s, desc.join("+"))
-}
-
-// ------------------------------------------------------------------ permutations (= Model.Router.perms)
-fn insert_all<T: Clone>(x: &T, l: &[T]) -> Vec<Vec<T>> {
-    if l.is_empty() {
-        return vec![vec![x.clone()]];
-    }
-    let mut first = vec![x.clone()];
-    first.extend_from_slice(l);
-    let mut out = vec![first];
-    for q in insert_all(x, &l[1..]) {
-        let mut v = vec![l[0].clone()];
-        v.extend(q);
-        out.push(v);
-    }
-    out
-}
-fn perms<T: Clone>(l: &[T]) -> Vec<Vec<T>> {
-    if l.is_empty() {
-        return vec![vec![]];
-    }
-    let mut out = vec![];
-    for p in perms(&l[1..]) {
-        out.extend(insert_all(&l[0], &p));
-    }
-    out
-}
+include!("gen_uri.rs");
+include!("corpus_paths.rs");
 
 // ------------------------------------------------------------------ case kinds
 fn outcome_class(o: &Result<Obs, String>) -> &'static str {
@@ -529,60 +672,71 @@ struct Ctx {
     unparsable: u64,
 }
 impl Ctx {
-    /// kind serve: registration in the given order, one request
-    fn serve(&mut self, kind: &str, regs: &[Reg], routes: &Result<Routes, String>, uri_text: &str, mutation: &str, prepare: bool) {
-        let uri: http::Uri = match uri_text.parse() {
-            Ok(u) => u,
+    fn parse_uri(&mut self, uri_text: &str) -> Option<http::Uri> {
+        match uri_text.parse::<http::Uri>() {
+            Ok(u) => {
+                self.out.hist("uri", "parsed");
+                Some(u)
+            }
             Err(_) => {
                 self.unparsable += 1;
                 self.out.hist("uri", "rejected by http::Uri (not sent)");
-                return;
+                None
             }
-        };
-        self.out.hist("uri", "parsed");
+        }
+    }
+    fn hist_outcome(&mut self, regs: &[Reg], o: &Result<Obs, String>) {
+        let c = outcome_class(o);
+        self.out.hist("outcome", c);
+        if let Ok(o) = o {
+            if let Some(name) = o.reached.first() {
+                if let Some(g) = regs.iter().find(|g| g.name() == name) {
+                    self.out.hist(&format!("{}.by", c), if g.is_real() { "real generated server" } else { "stub" });
+                    self.out.hist(&format!("{}.name_through", c), g.how.s());
+                }
+            }
+        }
+    }
+    fn hist_regs(&mut self, k: &str, regs: &[Reg], mutation: &str) {
+        self.out.hist(&format!("{}.services", k), regs.len());
+        self.out.hist("real_generated_servers", regs.iter().filter(|g| g.is_real()).count());
+        for g in regs {
+            self.out.hist("registered.name_through", g.how.s());
+        }
+        for m in mutation.split('+') {
+            self.out.hist("mutation", m);
+        }
+    }
+    /// kind serve: registration in the given order, one request
+    fn serve(&mut self, kind: &str, regs: &[Reg], routes: &Result<Routes, String>, uri_text: &str, mutation: &str, prepare: bool, via: Via) {
+        let Some(uri) = self.parse_uri(uri_text) else { return };
         let path = uri.path().to_string();
         let (obs, orc) = match routes {
             Err(p) => (Tr::L(vec![Tr::n(99u8)]), Some(format!("registration panicked: {}", p))),
             Ok(routes) => {
                 let o = request(routes, &self.w, &uri);
-                self.out.hist("outcome", outcome_class(&o));
-                let mut orc = oracle(regs, &path, &o);
-                if orc.is_none() {
-                    if let Ok(o) = &o {
-                        if o.http != 200 {
-                            orc = Some(format!("HTTP status {}", o.http));
-                        }
-                    }
-                }
-                (obs_tr(&o), orc)
+                self.hist_outcome(regs, &o);
+                (obs_tr(&o), oracle(regs, &path, &o))
             }
         };
-        self.out.hist("services", regs.len());
-        self.out.hist("real_generated_servers", regs.iter().filter(|g| matches!(g, Reg::Real(_))).count());
-        for m in mutation.split('+') {
-            self.out.hist("mutation", m);
-        }
+        self.hist_regs("serve", regs, mutation);
+        self.out.hist("serve.via", via.s());
+        self.out.hist("serve.prepare", prepare);
         let model = format!("obs_serve {} {}", coq_list(regs, |g| g.coq()), coq_bytes(path.as_bytes()));
         self.out.push(Case {
             kind: kind.to_string(),
-            input: json!({"services": regs.iter().map(|g| g.json()).collect::<Vec<_>>(), "uri": uri_text, "path": path, "prepare": prepare, "mutation": mutation}),
+            input: json!({"services": regs.iter().map(|g| g.json()).collect::<Vec<_>>(), "uri": uri_text, "path": path, "prepare": prepare, "via": via.s(), "mutation": mutation}),
             model,
             impl_obs: obs,
             oracle: orc,
             nontrivial: !regs.is_empty() && path.len() > 1,
         });
     }
-    /// kind orders: the same request against every registration order of <= 4 services
-    fn orders(&mut self, kind: &str, regs: &[Reg], all: &[(Vec<Reg>, Result<Routes, String>)], uri_text: &str, mutation: &str) {
-        let uri: http::Uri = match uri_text.parse() {
-            Ok(u) => u,
-            Err(_) => {
-                self.unparsable += 1;
-                self.out.hist("uri", "rejected by http::Uri (not sent)");
-                return;
-            }
-        };
-        self.out.hist("uri", "parsed");
+    /// kinds orders / orders.sampled: the same request against several registration orders.
+    /// `idxs` = None: all n! orders as Model.Router.perms enumerates them (n <= 4);
+    /// Some: the given arrangements of 0..n-1
+    fn orders(&mut self, kind: &str, regs: &[Reg], all: &[(Vec<Reg>, Result<Routes, String>)], idxs: Option<&Vec<Vec<usize>>>, uri_text: &str, mutation: &str, prepare: bool) {
+        let Some(uri) = self.parse_uri(uri_text) else { return };
         let path = uri.path().to_string();
         let mut trs = vec![];
         let mut orc: Option<String> = None;
@@ -614,25 +768,72 @@ impl Ctx {
             }
         }
         if let Some(f) = &first {
-            self.out.hist("outcome", outcome_class(f));
+            self.hist_outcome(regs, f);
         }
-        self.out.hist("orders.services", regs.len());
-        for m in mutation.split('+') {
-            self.out.hist("mutation", m);
-        }
-        let model = format!("obs_orders {} {}", coq_list(regs, |g| g.coq()), coq_bytes(path.as_bytes()));
+        self.hist_regs("orders", regs, mutation);
+        self.out.hist("orders.prepare", prepare);
+        self.out.hist("orders.orders_tried", all.len());
+        let model = match idxs {
+            None => format!("obs_orders {} {}", coq_list(regs, |g| g.coq()), coq_bytes(path.as_bytes())),
+            Some(ix) => format!(
+                "obs_orders_at {} {} {}",
+                coq_list(regs, |g| g.coq()),
+                coq_list(ix, |p| coq_list(p, |i| i.to_string())),
+                coq_bytes(path.as_bytes())
+            ),
+        };
         self.out.push(Case {
             kind: kind.to_string(),
-            input: json!({"services": regs.iter().map(|g| g.json()).collect::<Vec<_>>(), "uri": uri_text, "path": path, "orders": all.len(), "mutation": mutation}),
+            input: json!({"services": regs.iter().map(|g| g.json()).collect::<Vec<_>>(), "uri": uri_text, "path": path, "orders": all.len(), "order_indices": idxs, "prepare": prepare, "mutation": mutation}),
             model,
             impl_obs: Tr::L(trs),
             oracle: orc,
             nontrivial: regs.len() >= 2 && path.len() > 1,
         });
     }
+    /// kind transport: Server::builder() registration, served over duplex, raw h2 client
+    fn transport(&mut self, kind: &str, regs: &[Reg], uris: &[(String, String)]) {
+        let model_regs = present(regs);
+        let parsed: Vec<(String, String, http::Uri)> = uris
+            .iter()
+            .filter_map(|(u, d)| {
+                // an h2 request needs scheme and authority; only origin-form texts are sent
+                if !u.starts_with('/') {
+                    return None;
+                }
+                let uri = self.parse_uri(&format!("http://h{}", u))?;
+                Some((u.clone(), d.clone(), uri))
+            })
+            .collect();
+        let router = build_transport(regs, &self.w);
+        let results: Vec<Result<Obs, String>> = match router {
+            Err(p) => parsed.iter().map(|_| Err(format!("registration panicked: {}", p))).collect(),
+            Ok(router) => {
+                let us: Vec<http::Uri> = parsed.iter().map(|p| p.2.clone()).collect();
+                wire_requests(router, &self.w, &us)
+            }
+        };
+        for ((text, mutation, uri), o) in parsed.iter().zip(results) {
+            let path = uri.path().to_string();
+            self.hist_outcome(&model_regs, &o);
+            self.hist_regs("transport", &model_regs, mutation);
+            for g in regs {
+                self.out.hist("transport.added_by", match g.opt { None => "add_service", Some(true) => "add_optional_service(Some)", Some(false) => "add_optional_service(None)" });
+            }
+            let model = format!("obs_serve {} {}", coq_list(&model_regs, |g| g.coq()), coq_bytes(path.as_bytes()));
+            self.out.push(Case {
+                kind: kind.to_string(),
+                input: json!({"services": regs.iter().map(|g| g.json()).collect::<Vec<_>>(), "uri": text, "path": path, "mutation": mutation}),
+                model,
+                impl_obs: obs_tr(&o),
+                oracle: oracle(&model_regs, &path, &o),
+                nontrivial: model_regs.len() >= 2 && path.len() > 1,
+            });
+        }
+    }
     /// kind build: does registration panic (duplicates, names axum rejects)
-    fn build_case(&mut self, kind: &str, regs: &[Reg]) {
-        let r = build(regs, &self.w, false, false);
+    fn build_case(&mut self, kind: &str, regs: &[Reg], via: Via) {
+        let r = build(regs, &self.w, false, via);
         let names: Vec<&str> = regs.iter().map(|g| g.name()).collect();
         let distinct = (0..names.len()).all(|i| (0..i).all(|j| names[i] != names[j]));
         let rejected = names.iter().any(|n| n.starts_with('*') || n.starts_with(':'));
@@ -642,9 +843,10 @@ impl Ctx {
             _ => None,
         };
         self.out.hist("build", if r.is_ok() { "ok" } else if !distinct { "panic (duplicate name)" } else { "panic (name rejected by axum)" });
+        self.out.hist("build.via", via.s());
         self.out.push(Case {
             kind: kind.to_string(),
-            input: json!({"services": regs.iter().map(|g| g.json()).collect::<Vec<_>>()}),
+            input: json!({"services": regs.iter().map(|g| g.json()).collect::<Vec<_>>(), "via": via.s()}),
             model: format!("obs_build {}", coq_list(regs, |g| g.coq())),
             impl_obs: match r {
                 Ok(_) => Tr::L(vec![Tr::n(1u8), Tr::n(regs.len() as u64)]),
@@ -656,41 +858,55 @@ impl Ctx {
     }
 }
 
-fn all_orders(regs: &[Reg], w: &World) -> Vec<(Vec<Reg>, Result<Routes, String>)> {
-    perms(regs).into_iter().map(|p| { let r = build(&p, w, false, false); (p, r) }).collect()
+fn all_orders(regs: &[Reg], w: &World, prepare: bool) -> Vec<(Vec<Reg>, Result<Routes, String>)> {
+    perms(regs).into_iter().map(|p| { let r = build(&p, w, prepare, Via::Direct); (p, r) }).collect()
 }
-
-const CORPUS_PATHS: &[&str] = &[
-    "/pkg.Svc/Get", "/pkg.Svc/List", "/pkg.Svc/Put", "/pkg.Svc/Chat", "/pkg.SvcX/Get", "/pkg.SvcX/GetX", "/pkg.SvcX/Ge",
-    "/Svc/Get", "/Svc/get", "/Svc/GET", "/pkg.Svc.Inner/Get", "/pkg.Svc.Inner/type",
-    "/grpc.health.v1.Health/Check", "/grpc.health.v1.Health/Watch", "/grpc.health.v1.Health/check",
-    "/grpc.health.v1.Healt/Check", "/grpc.health.v1.HealthX/Check", "/grpc.health.v1.Health/Check/",
-    "/grpc.reflection.v1.ServerReflection/ServerReflectionInfo", "/grpc.reflection.v1alpha.ServerReflection/ServerReflectionInfo",
-    "/grpc.reflection.v1.ServerReflection/serverReflectionInfo", "/grpc.reflection.v1beta.ServerReflection/ServerReflectionInfo",
-    // the near misses of Props/C10.v c10_examples
-    "/pkg.Other/Get", "/pkg.Svc/Nope", "/pkg.Sv/Get", "/pkg.SvcXY/Get", "/pkg/Svc/Get", "/pkg.Svc/Ge", "/pkg.Svc/GetX",
-    "/pkg.Svc/Get/x", "/pkg.Svc/Get/", "/pkg.Svc//Get", "//pkg.Svc/Get", "/pkg.Svc/", "/pkg.Svc", "/", "*",
-    "/pkg.svc/Get", "/pkg.Svc/GET", "/PKG.SVC/GET", "/pkg.Svc%2FGet", "/pkg.Svc%2fGet", "/pkg.Svc/%47et", "/pkg%2ESvc/Get",
-    "/pkg.Svc/Get?x=1", "/pkg.Svc/Get?", "/pkg.Svc?/Get", "/pkg.Svc/Get#f", "http://h/pkg.Svc/Get", "https://example.com:443/pkg.Svc/Get/",
-    "http://h", "/pkg.Svc/Get%20", "/pkg.Svc/Get;v=1", "/pkg.Svc;v=1/Get", "/./pkg.Svc/Get", "/pkg.Svc/../pkg.Svc/Get",
-    "/pkg.Svc/%FF", "/pkg.Svc/\u{e9}", "/pkg.Svc./Get", "/.pkg.Svc/Get", "/pkg.Svc.Inner/Get/Get", "/pkg.Svc.Inne/Get",
-    "/pkg.Svc/Inner/Get", "/Svc/Svc/Get", "/pkg.Svc/pkg.Svc/Get", "/pkg.Svc/{*rest}", "/{S}/Get", "/pkg.Svc/*",
-];
+fn orders_at(regs: &[Reg], idxs: &[Vec<usize>], w: &World, prepare: bool) -> Vec<(Vec<Reg>, Result<Routes, String>)> {
+    idxs.iter()
+        .map(|ix| {
+            let p: Vec<Reg> = ix.iter().map(|i| regs[*i].clone()).collect();
+            let r = build(&p, w, prepare, Via::Direct);
+            (p, r)
+        })
+        .collect()
+}
+fn sample_orders(r: &mut Rng, n: usize, k: usize) -> Vec<Vec<usize>> {
+    let id: Vec<usize> = (0..n).collect();
+    let mut out = vec![id.clone(), id.iter().rev().cloned().collect()];
+    while out.len() < k {
+        let mut p = id.clone();
+        for i in (1..n).rev() {
+            let j = r.below(i as u64 + 1) as usize;
+            p.swap(i, j);
+        }
+        out.push(p);
+    }
+    out
+}
 
 fn run_replay(ctx: &mut Ctx, file: &str) {
     let v: Value = serde_json::from_str(&std::fs::read_to_string(file).expect("replay file")).expect("json");
     let kind = v["kind"].as_str().unwrap_or("serve").to_string();
     let input = &v["input"];
     let regs: Vec<Reg> = input["services"].as_array().unwrap().iter().map(Reg::from_json).collect();
+    let uri = input["uri"].as_str().unwrap_or("/");
+    let mutation = input["mutation"].as_str().unwrap_or("id");
+    let prepare = input["prepare"].as_bool().unwrap_or(false);
     if kind.ends_with("build") {
-        ctx.build_case(&kind, &regs);
+        ctx.build_case(&kind, &regs, Via::parse(input["via"].as_str().unwrap_or("")));
+    } else if kind.ends_with("transport") {
+        ctx.transport(&kind, &regs, &[(uri.to_string(), mutation.to_string())]);
+    } else if kind.ends_with("orders.sampled") {
+        let idxs: Vec<Vec<usize>> = input["order_indices"].as_array().unwrap().iter().map(|p| p.as_array().unwrap().iter().map(|i| i.as_u64().unwrap() as usize).collect()).collect();
+        let all = orders_at(&regs, &idxs, &ctx.w, prepare);
+        ctx.orders(&kind, &regs, &all, Some(&idxs), uri, mutation, prepare);
     } else if kind.ends_with("orders") {
-        let all = all_orders(&regs, &ctx.w);
-        ctx.orders(&kind, &regs, &all, input["uri"].as_str().unwrap(), input["mutation"].as_str().unwrap_or("id"));
+        let all = all_orders(&regs, &ctx.w, prepare);
+        ctx.orders(&kind, &regs, &all, None, uri, mutation, prepare);
     } else {
-        let prepare = input["prepare"].as_bool().unwrap_or(false);
-        let routes = build(&regs, &ctx.w, prepare, false);
-        ctx.serve(&kind, &regs, &routes, input["uri"].as_str().unwrap(), input["mutation"].as_str().unwrap_or("id"), prepare);
+        let via = Via::parse(input["via"].as_str().unwrap_or(""));
+        let routes = build(&regs, &ctx.w, prepare, via);
+        ctx.serve(&kind, &regs, &routes, uri, mutation, prepare, via);
     }
 }
 
@@ -698,7 +914,7 @@ fn main() {
     let a = args();
     let mut ctx = Ctx { out: Out::new(&a.out), w: World::default(), unparsable: 0 };
     let mut r = Rng::new(a.seed);
-    const RULE: &str = "serve: 0..8 services (stubs transcribing the generated `call` + 7 real generated servers, names drawn from prefix/case families, with and without package) registered on Routes::default() [optionally prepare()], one request whose URI is a registered /S/M under 0-2 of 31 mutations (drop/insert/case/extra+empty segments/%2F/percent-escapes/query/fragment/absolute-form/prefix truncation+extension/...) or random; orders: 1..4 services, the same request against ALL n! registration orders; build: registration with duplicate and rejected names. Non-trivial = at least one (orders: two) services and a path other than '/'. Distinct = distinct (kind, model expression).";
+    const RULE: &str = "serve: 0..8 services (stubs transcribing the generated `call` + 7 real generated servers, names drawn from prefix/case families, with and without package; NamedService::NAME through the harness wrapper, InterceptedService::new, XxxServer::with_interceptor or Layered) registered via Routes::default().add_service / Routes::new / RoutesBuilder::add_service(&mut) / RoutesBuilder::from [optionally prepare()], one request whose URI is a registered /S/M under 0-2 of 31 mutations (drop/insert/case/extra+empty segments/%2F/percent-escapes/query/fragment/absolute-form/prefix truncation+extension/...) or random; orders: 1..4 services, the same request against ALL n! registration orders (with and without prepare()); orders.sampled: 5..8 services, 12 sampled orders; transport: Server::builder().add_service / add_optional_service(Some|None) chains served with serve_with_incoming over tokio duplex, requests sent by a raw h2 client; build: registration with duplicate and rejected names. The whole response head of every non-handler answer is observed (HTTP status, all headers, body, trailers). Non-trivial = at least one (orders, transport: two) services and a path other than '/'. Distinct = distinct (kind, model expression).";
 
     if let Some(f) = &a.replay {
         run_replay(&mut ctx, f);
@@ -707,79 +923,141 @@ fn main() {
     }
 
     // ---- corpus: all 7 real generated servers, the hand-picked near misses ----
-    let real: Vec<Reg> = (0..7).map(Reg::Real).collect();
-    for prepare in [false, true] {
-        let routes = build(&real, &ctx.w, prepare, prepare);
+    let real: Vec<Reg> = (0..7).map(Reg::real).collect();
+    for (prepare, via) in [(false, Via::Direct), (true, Via::Builder)] {
+        let routes = build(&real, &ctx.w, prepare, via);
         for p in CORPUS_PATHS {
-            ctx.serve("corpus.serve", &real, &routes, p, "corpus", prepare);
+            ctx.serve("corpus.serve", &real, &routes, p, "corpus", prepare, via);
         }
     }
-    // the same names as stubs (finer observable is identical), incl. odd but legal names
-    let stubs: Vec<Reg> = vec![
-        Reg::Stub { idx: 0, methods: vec!["Get".into(), "List".into()] },
-        Reg::Stub { idx: 1, methods: vec!["Get".into(), "GetX".into()] },
-        Reg::Stub { idx: 2, methods: vec!["Get".into(), "get".into()] },
-        Reg::Stub { idx: 3, methods: vec!["Get".into()] },
+    // the same with NAME propagated by tonic (interceptor / with_interceptor / Layered)
+    for how in [How::Intercepted, How::WithInterceptor, How::Layered] {
+        let regs: Vec<Reg> = (0..7).map(|k| Reg { kind: Kind::Real(k), how, opt: None }).collect();
+        let routes = build(&regs, &ctx.w, false, Via::Direct);
+        for p in CORPUS_PATHS {
+            ctx.serve("corpus.serve", &regs, &routes, p, "corpus", false, Via::Direct);
+        }
+    }
+    // empty Routes: every path is answered by the fallback (C03: a well-formed UNIMPLEMENTED)
+    for via in [Via::Direct, Via::Builder] {
+        let routes = build(&[], &ctx.w, false, via);
+        for p in ["/", "/pkg.Svc/Get", "/grpc.health.v1.Health/Check", "*", "/a", "//", "/a/b/c?x"] {
+            ctx.serve("corpus.serve", &[], &routes, p, "corpus", false, via);
+        }
+    }
+    // through tonic::transport::Server over a connection
+    let paths: Vec<(String, String)> = CORPUS_PATHS.iter().map(|p| (p.to_string(), "corpus".to_string())).collect();
+    ctx.transport("corpus.transport", &real, &paths);
+    let mixed: Vec<Reg> = vec![
+        Reg { kind: Kind::Real(0), how: How::WithInterceptor, opt: None },
+        Reg { kind: Kind::Real(1), how: How::Plain, opt: Some(true) },
+        Reg { kind: Kind::Real(2), how: How::Layered, opt: Some(false) },
+        Reg { kind: Kind::Real(4), how: How::Intercepted, opt: None },
+        Reg { kind: Kind::Stub { idx: 3, methods: vec!["Get".into()] }, how: How::Layered, opt: Some(true) },
     ];
-    let all = all_orders(&stubs, &ctx.w);
-    for p in CORPUS_PATHS {
-        ctx.orders("corpus.orders", &stubs, &all, p, "corpus");
+    ctx.transport("corpus.transport", &mixed, &paths);
+    ctx.transport("corpus.transport", &[], &paths[..12]);
+    ctx.transport("corpus.transport", &[Reg { kind: Kind::Real(0), how: How::Plain, opt: Some(false) }], &paths[..12]);
+    // the same names as stubs (finer observable is identical), incl. odd but legal names
+    let stubs: Vec<Reg> = vec![Reg::stub(0, &["Get", "List"]), Reg::stub(1, &["Get", "GetX"]), Reg::stub(2, &["Get", "get"]), Reg::stub(3, &["Get"])];
+    for prepare in [false, true] {
+        let all = all_orders(&stubs, &ctx.w, prepare);
+        for p in CORPUS_PATHS {
+            ctx.orders("corpus.orders", &stubs, &all, None, p, "corpus", prepare);
+        }
     }
     let odd: Vec<Reg> = vec![
-        Reg::Stub { idx: 21, methods: vec!["M".into()] },           // NAME = ""
-        Reg::Stub { idx: 18, methods: vec!["M".into(), "x%2Fy".into()] }, // NAME = "x%2Fy"
-        Reg::Stub { idx: 26, methods: vec!["M".into(), "Get/x".into(), "".into()] }, // NAME = "x": a method with '/', an empty method
-        Reg::Stub { idx: 19, methods: vec!["M".into()] },           // a*b
+        Reg::stub(21, &["M"]),                // NAME = ""
+        Reg::stub(18, &["M", "x%2Fy"]),       // NAME = "x%2Fy"
+        Reg::stub(26, &["M", "Get/x", ""]),   // NAME = "x": a method with '/', an empty method
+        Reg::stub(19, &["M"]),                // a*b
     ];
-    let all = all_orders(&odd, &ctx.w);
+    let all = all_orders(&odd, &ctx.w, false);
     for p in ["//M", "/x%2Fy/M", "/x%2fy/M", "/x/y/M", "/x%2Fy/x%2Fy", "/x/Get/x", "/x/Get", "/x/", "/x", "/a*b/M", "/aXb/M", "/a%2Ab/M", "///M", "//", "/"] {
-        ctx.orders("corpus.orders", &odd, &all, p, "corpus");
+        ctx.orders("corpus.orders", &odd, &all, None, p, "corpus", false);
     }
     // registration panics
     for regs in [
-        vec![Reg::Real(0), Reg::Stub { idx: 0, methods: vec![] }],
-        vec![Reg::Stub { idx: 2, methods: vec![] }, Reg::Real(2)],
-        vec![Reg::Stub { idx: 28, methods: vec![] }],
-        vec![Reg::Stub { idx: 9, methods: vec![] }, Reg::Stub { idx: 29, methods: vec![] }],
-        vec![Reg::Stub { idx: 19, methods: vec![] }, Reg::Stub { idx: 20, methods: vec![] }, Reg::Stub { idx: 21, methods: vec![] }],
+        vec![Reg::real(0), Reg::stub(0, &[])],
+        vec![Reg::stub(2, &[]), Reg::real(2)],
+        vec![Reg::stub(28, &[])],
+        vec![Reg::stub(9, &[]), Reg::stub(29, &[])],
+        vec![Reg::stub(19, &[]), Reg::stub(20, &[]), Reg::stub(21, &[])],
         vec![],
         real.clone(),
     ] {
-        ctx.build_case("corpus.build", &regs);
+        for via in [Via::Direct, Via::New, Via::Builder] {
+            ctx.build_case("corpus.build", &regs, via);
+        }
     }
 
     // ---- generated ----
-    let (n_orders, paths_per, n_serve_sc, n_build) = if a.thorough { (700, 12, 2200, 600) } else { (70, 10, 160, 80) };
+    let (n_orders, paths_per, n_serve_sc, n_build, n_sampled, n_transport) = if a.thorough { (500, 12, 1500, 600, 200, 400) } else { (60, 10, 140, 80, 25, 40) };
     for _ in 0..n_orders {
         let regs = gen_regs(&mut r, 4, 1);
-        let all = all_orders(&regs, &ctx.w);
+        let prepare = r.chance(1, 2);
+        let all = all_orders(&regs, &ctx.w, prepare);
         for _ in 0..paths_per {
             let (u, d) = gen_uri(&mut r, &regs);
-            ctx.orders("orders", &regs, &all, &u, &d);
+            ctx.orders("orders", &regs, &all, None, &u, &d, prepare);
+        }
+    }
+    for _ in 0..n_sampled {
+        let regs = gen_regs(&mut r, 8, 5);
+        let prepare = r.chance(1, 2);
+        let idxs = sample_orders(&mut r, regs.len(), 12);
+        let all = orders_at(&regs, &idxs, &ctx.w, prepare);
+        for _ in 0..paths_per {
+            let (u, d) = gen_uri(&mut r, &regs);
+            ctx.orders("orders.sampled", &regs, &all, Some(&idxs), &u, &d, prepare);
         }
     }
     for _ in 0..n_serve_sc {
         let regs = gen_regs(&mut r, 8, 0);
         let prepare = r.chance(1, 2);
-        let routes = build(&regs, &ctx.w, prepare, r.chance(1, 3));
+        let via = Via::pick(&mut r);
+        let routes = build(&regs, &ctx.w, prepare, via);
         for _ in 0..paths_per {
             let (u, d) = gen_uri(&mut r, &regs);
-            ctx.serve("serve", &regs, &routes, &u, &d, prepare);
+            ctx.serve("serve", &regs, &routes, &u, &d, prepare, via);
         }
+    }
+    for _ in 0..n_transport {
+        let mut regs = gen_regs(&mut r, 6, 0);
+        if regs.len() < 2 && r.chance(3, 4) {
+            regs = gen_regs(&mut r, 5, 2);
+        }
+        for g in regs.iter_mut() {
+            g.opt = match r.below(10) {
+                0..=4 => None,
+                5..=7 => Some(true),
+                _ => Some(false),
+            };
+        }
+        let model_regs = present(&regs);
+        let mut uris = vec![];
+        for _ in 0..paths_per {
+            // aim at everything that was passed to the builder, registered or not
+            let aim_all = r.chance(1, 4);
+            uris.push(gen_uri(&mut r, if aim_all { &regs } else { &model_regs }));
+        }
+        ctx.transport("transport", &regs, &uris);
     }
     for _ in 0..n_build {
         let n = r.range(0, 5);
         let mut regs = vec![];
         for _ in 0..n {
-            regs.push(if r.chance(1, 4) {
-                Reg::Real(r.below(7) as usize)
+            let kind = if r.chance(1, 4) {
+                Kind::Real(r.below(7) as usize)
             } else if r.chance(1, 6) {
-                Reg::Stub { idx: r.range(28, 29) as usize, methods: vec![] }
+                Kind::Stub { idx: r.range(28, 29) as usize, methods: vec![] }
             } else {
-                Reg::Stub { idx: *r.pick(&[0usize, 1, 2, 3, 4, 15, 19, 20, 21]), methods: gen_methods(&mut r) }
-            });
+                Kind::Stub { idx: *r.pick(&[0usize, 1, 2, 3, 4, 15, 19, 20, 21]), methods: gen_methods(&mut r) }
+            };
+            let real = matches!(kind, Kind::Real(_));
+            regs.push(Reg { kind, how: gen_how(&mut r, real), opt: None });
         }
-        ctx.build_case("build", &regs);
+        ctx.build_case("build", &regs, Via::pick(&mut r));
     }
 
     let unparsable = ctx.unparsable;
